@@ -768,3 +768,20 @@ pub mod quiet_stdout {
         }
     }
 }
+
+/// Runs a child to completion with a wall-clock cap. `Ok(None)` = the cap was hit and the child was killed.
+pub fn status_with_timeout(cmd: &mut std::process::Command, secs: u64) -> std::io::Result<Option<std::process::ExitStatus>> {
+    let mut child = cmd.spawn()?;
+    let t0 = std::time::Instant::now();
+    loop {
+        if let Some(st) = child.try_wait()? {
+            return Ok(Some(st));
+        }
+        if t0.elapsed().as_secs() >= secs {
+            let _ = child.kill();
+            let _ = child.wait();
+            return Ok(None);
+        }
+        std::thread::sleep(std::time::Duration::from_millis(100));
+    }
+}
